@@ -71,6 +71,15 @@ pub fn render(e: &GExpr) -> String {
     }
 }
 
+pub fn is_wire_name(n: &str) -> bool {
+    if n == "true" || n == "false" { return false; }
+    if n == "C_n" || n == "Stat" { return true; }
+    let mut cs = n.chars();
+    let first = cs.next().unwrap_or('A');
+    // bank outputs look like X_name
+    first.is_lowercase() || cs.next() == Some('_')
+}
+
 pub struct Scope {
     pub wires: Vec<(String, W)>,        // readable names with their widths (wires and constants)
     pub counts: std::collections::BTreeMap<&'static str, u64>,
@@ -108,9 +117,16 @@ fn leaf(rng: &mut Rng, sc: &mut Scope, target: W) -> GExpr {
 
 /// a condition that is not constant (mentions a wire when one exists), so that it is never "always true"
 fn condition(rng: &mut Rng, sc: &mut Scope, depth: u32) -> GExpr {
-    let sized: Vec<(String, W)> = sc.wires.iter().filter(|x| x.0.starts_with('v')).cloned().collect();
+    // names that are wires (not constants): by convention constants start with an upper-case letter or are true/false
+    let sized: Vec<(String, W)> = sc.wires.iter().filter(|x| is_wire_name(&x.0)).cloned().collect();
     if sized.is_empty() {
-        return gen(rng, sc, W::Bits(1), depth);
+        // constant context: a condition here is decided at check time; keep it false so that the
+        // last arm stays the only always-true one
+        return match rng.below(3) {
+            0 => GExpr::Const(0, W::Unl, 0),
+            1 => GExpr::Bin("==", Box::new(GExpr::Const(1, W::Unl, 0)), Box::new(GExpr::Const(2, W::Unl, 0))),
+            _ => GExpr::Bin("<", Box::new(GExpr::Const(interesting_value(rng, W::Bits(8)), W::Bits(8), 3)), Box::new(GExpr::Const(0, W::Bits(8), 3))),
+        };
     }
     let (name, w) = rng.pick(&sized).clone();
     let ow = if rng.chance(1, 3) { W::Unl } else { w };
@@ -140,7 +156,13 @@ pub fn gen(rng: &mut Rng, sc: &mut Scope, target: W, depth: u32) -> GExpr {
                     if rng.chance(1, 2) { (W::Bits(n), other) } else { (other, W::Bits(n)) }
                 }
             };
-            GExpr::Bin(op, Box::new(gen(rng, sc, lw, d)), Box::new(gen(rng, sc, rw, d)))
+            let l = gen(rng, sc, lw, d);
+            let mut r = gen(rng, sc, rw, d);
+            if op == "/" && rng.chance(7, 8) {
+                // keep most divisors non-zero
+                r = GExpr::Bin("|", Box::new(r), Box::new(GExpr::Const(1, W::Unl, 0)));
+            }
+            GExpr::Bin(op, Box::new(l), Box::new(r))
         }
         (4..=6, _) => {
             sc.hit("bitwise");
